@@ -122,6 +122,11 @@ where T: Types
     /// the FlushWorker.
     fn send_request(&mut self, req: WorkerRequest<T>) -> Result<(), io::Error> {
         self.sent_seq += 1;
+        #[cfg(feature = "verif-hooks")]
+        crate::verif_hooks::emit(crate::verif_hooks::VerifEvent::Sent {
+            seq: self.sent_seq,
+            kind: req.verif_kind(),
+        });
         self.flush_tx
             .send(SeqRequest {
                 seq: self.sent_seq,
